@@ -14,7 +14,6 @@ import (
 	"strconv"
 	"strings"
 	"testing"
-	"testing/iotest"
 
 	"github.com/tmaxmax/go-sse"
 )
@@ -84,12 +83,9 @@ func TestVerifBounded_C20(t *testing.T) {
 			prev = e
 		}
 		want, ueof := c01Reference(s)
-		for mode := 0; mode < 2; mode++ {
-			var base io.Reader = strings.NewReader(s)
-			if mode == 1 {
-				base = iotest.OneByteReader(strings.NewReader(s))
-			}
-			cr := &c20Counter{r: base}
+		names, readers := c01Readers(s)
+		for mode := range readers {
+			cr := &c20Counter{r: readers[mode]()}
 			var got []c01Event
 			var err error
 			panicked := func() (p any) {
@@ -135,7 +131,7 @@ func TestVerifBounded_C20(t *testing.T) {
 					bad = "events delivered are not a prefix of the reference events"
 				}
 			}
-			if bad != "" && mode == 1 && errors.Is(err, bufio.ErrTooLong) && len(got) <= len(want) && fmt.Sprint(got) == fmt.Sprint(want[:len(got)]) && c20CutCRLFTooLong(s) {
+			if bad != "" && names[mode] != "whole" && names[mode] != "whole+eof" && errors.Is(err, bufio.ErrTooLong) && len(got) <= len(want) && fmt.Sprint(got) == fmt.Sprint(want[:len(got)]) && c20CutCRLFTooLong(s) {
 				// known finding crlf-cut: the reader delivered the CR and the LF of an event-ending CRLF separately; the LF
 				// then counts as a blank line of the next block, which reaches the limit one byte early
 				known++
@@ -147,7 +143,7 @@ func TestVerifBounded_C20(t *testing.T) {
 			if bad != "" {
 				fails++
 				if fails <= 20 {
-					fmt.Printf("BOUNDED-FAIL %s\n", mustJSON(map[string]any{"input": s, "one_byte_reader": mode == 1, "max_event_size": c20Max, "problem": bad, "got": got, "err": fmt.Sprint(err), "want": want, "bytes_read": cr.n, "block_ends": ends}))
+					fmt.Printf("BOUNDED-FAIL %s\n", mustJSON(map[string]any{"input": s, "reader": names[mode], "max_event_size": c20Max, "problem": bad, "got": got, "err": fmt.Sprint(err), "want": want, "bytes_read": cr.n, "block_ends": ends}))
 				}
 			}
 		}
@@ -178,7 +174,7 @@ func TestVerifBounded_C20(t *testing.T) {
 		rec("", 0)
 	}
 	fmt.Printf("BOUNDED-STATS %s\n", mustJSON(map[string]any{"bound_tokens": bound, "alphabet": c20Alphabet, "max_event_size": c20Max, "evaluations": total, "distinct_nontrivial": nontrivial,
-		"rule": "every concatenation of at most bound_tokens tokens, MaxEventSize 12, read whole and through a one-byte reader with the bytes pulled counted; non-trivial = some block (event with its preceding blank lines) exceeds the limit", "failures": fails, "known_crlf_cut": known, "samples": samples, "exhaustive": true}))
+		"rule": "every concatenation of at most bound_tokens tokens, MaxEventSize 12, read whole, one byte at a time, each also with io.EOF together with the last bytes, and cut after CRs, with the bytes pulled from the reader counted; non-trivial = some block (event with its preceding blank lines) exceeds the limit", "failures": fails, "known_crlf_cut": known, "samples": samples, "exhaustive": true}))
 	if fails > 0 {
 		t.Fatalf("%d failures", fails)
 	}
